@@ -26,15 +26,15 @@ TRUSTED = ['modelled, not verified: the dict-of-lists model coq/model/M_table.v 
            'dict key order is not modelled: observations are compared with columns sorted by name; generated ops never depend on key order '
            '(relabel maps are injective on every table: permutations of a name set or chains ending in a history-fresh name; two-argument do-functions only with explicit keys)',
            'Dict.copy is modelled as the identity on contents (it re-inserts every column through __setitem__)']
-ASSUMPTIONS = ['cells are None, ints, half-integer floats, +-inf, NaN objects, ASCII strings, datetimes (year 1 .. 9999, microseconds); no bool cells, no nested containers', 'column names are ASCII identifiers other than "key"',
-               'row/column callables come from the named set coalesce, is_none, identity, eq (model: M_table.rowfn, colfn)']
+ASSUMPTIONS = ['cells are None, ints, half-integer floats, +-inf, NaN objects, ASCII strings, datetimes (year 1 .. 9999, microseconds); no bool cells, no nested containers', 'column names are ASCII identifiers (a column named "key" is modelled: it wins over the key=<new column> default of d(k=f)); not data / columns (constructor parameters)',
+               'row/column callables come from the named set coalesce, is_none, identity, eq (model: M_table.rowfn, colfn); a derived-column function with a parameter "key" and NO such column receives the new column name (modelled, no oracle claim)']
 EXHAUSTIVE = {'quick': False, 'thorough': False}
 LEVEL_TEXT = ('machine-checked Coq theorems C01_* for all histories and tables (invariant + refinement to a list-of-records spec by induction over the '
               'op list) about a dict-of-lists model of dictable; the model is compared with the real dictable after every op of thousands of generated histories')
 LEVEL_NOTE = 'the model is tied to the source by the differential run only (no translator: the code is dict/list manipulation, not arithmetic)'
 TECHNIQUE = 'Coq refinement proof (data refinement dict-of-lists -> list of records, fold_left induction) + differential correspondence in vm_compute + list-of-records oracle'
 
-NAMES = ['a', 'b', 'c', 'd', 'id', '_x', 'find_a']
+NAMES = ['a', 'b', 'c', 'd', 'id', '_x', 'find_a', 'key']      # 'key': Dict.__call__ injects key=<new column> as a default; a column of that name must win
 
 # ------------------------------------------------------------------ cells
 def cell_py(c, nans):
@@ -80,7 +80,8 @@ def rowfn_coq(f):
     return {'coalesce': lambda: '(RCoalesce %s %s)' % (qs(f[1]), qs(f[2])), 'isnone': lambda: '(RIsNone %s)' % qs(f[1]),
             'ident': lambda: '(RIdent %s)' % qs(f[1]), 'eq': lambda: '(REq %s %s)' % (qs(f[1]), qs(f[2]))}[f[0]]()
 def colfn_coq(f):
-    return {'isnone': 'FIsNone', 'none': 'FNone', 'ident': 'FIdent'}.get(f[0]) or '(FCoalesce %s)' % qs(f[1])
+    return {'isnone': 'FIsNone', 'none': 'FNone', 'ident': 'FIdent'}.get(f[0]) or ('(FEq %s)' if f[0] == 'eq' else '(FCoalesce %s)') % qs(f[1])
+def do_fns(o): return o['fs'] if 'fs' in o else [o['f']]
 
 def op_coq(o):
     k = o['op']
@@ -111,7 +112,7 @@ def op_coq(o):
         return 'ORelabel %s %s %s' % (nat(o['dst']), nat(o['r']), s)
     if k == 'do':
         ks = 'None' if o['ks'] is None else '(Some %s)' % clist(qs(n) for n in o['ks'])
-        return 'ODo %s %s %s %s' % (nat(o['dst']), nat(o['r']), colfn_coq(o['f']), ks)
+        return 'ODo %s %s %s %s' % (nat(o['dst']), nat(o['r']), clist(colfn_coq(f) for f in do_fns(o)), ks)
     if k == 'concat': return 'OConcat %s %s' % (nat(o['dst']), clist(nat(r) for r in o['srcs']))
     if k == 'add':
         a = o['a']
@@ -135,6 +136,7 @@ def mk_colfn(f):
     if f[0] == 'none': return lambda v: None
     if f[0] == 'ident': return lambda v: v
     if f[0] == 'coalesce': return eval('lambda v, %s: %s if v is None else v' % (f[1], f[1]))
+    if f[0] == 'eq': return eval('lambda v, %s: 1 if v == %s else 0' % (f[1], f[1]))
     raise ValueError(f)
 def rowfn_args(f): return f[1:]
 def ref_rowfn(f, row):
@@ -147,6 +149,7 @@ def ref_colfn(f, v, row):
     if f[0] == 'none': return None
     if f[0] == 'ident': return v
     if f[0] == 'coalesce': return row[f[1]] if v is None else v
+    if f[0] == 'eq': return 1 if v == row[f[1]] else 0
 
 # ------------------------------------------------------------------ the list-of-records reference (the property text, value semantics)
 class Ref:
@@ -266,9 +269,13 @@ def ref_step(o, get, conv):
     if k == 'do':
         ks = t.cols if o['ks'] is None else o['ks']
         rows = [dict(r) for r in t.rows]
-        if any(n not in t.cols for n in ks) or any(n not in t.cols for n in o['f'][1:]): return 'new', None
+        fns = do_fns(o)
+        if any(n not in t.cols for n in ks) or any(n not in t.cols for f in fns for n in f[1:]): return 'new', None
+        # per-column transforms applied in sequence: columns left to right, for each column the functions left to right,
+        # every step sees the rows as they are at that moment (extra, column-named arguments included)
         for key in ks:
-            rows = [dict(r, **{key: ref_colfn(o['f'], r[key], r)}) for r in rows]
+            for f in fns:
+                rows = [dict(r, **{key: ref_colfn(f, r[key], r)}) for r in rows]
         return 'new', Ref(t.cols, rows)
     if k == 'concat':
         ts = [get(r) for r in o['srcs']]
@@ -422,7 +429,7 @@ def impl(case):
                 else:
                     result = meth(dict(map(tuple, sp[1]))) if o.get('argform') == 'dict' else meth(**dict(map(tuple, sp[1])))
             elif k == 'do':
-                f = mk_colfn(o['f'])
+                fns_ = [mk_colfn(f_) for f_ in do_fns(o)]; f = fns_[0] if len(fns_) == 1 and o.get('fform') != 'list' else fns_
                 result = regs[o['r']].do(f) if o['ks'] is None else regs[o['r']].do(f, []) if not o['ks'] else regs[o['r']].do(f, list(o['ks'])) if o.get('form') == 'list' else regs[o['r']].do(f, *o['ks'])
             elif k == 'concat': result = dictable.concat([regs[r] for r in o['srcs']]) if o.get('form') == 'list' else dictable.concat(*[regs[r] for r in o['srcs']])
             elif k == 'add':
@@ -640,9 +647,18 @@ def gen_op(rng, shadow, malformed):
         return {'op': 'relabel', 'dst': dst, 'r': r, 'sp': sp, 'form': rng.choice(['relabel', 'relabel', 'rename'])}
     if kind == 'do':
         q = rng.random()
-        if q < 0.6: f = [rng.choice(['isnone', 'none', 'ident'])]; ks = rng.choice([None, None, [], [rname(rng, t, 0.9)], [rname(rng, t, 0.9), rname(rng, t, 0.9)]])
-        else: f = ['coalesce', rname(rng, t, 0.9)]; ks = [rname(rng, t, 0.9) for _ in range(rng.choice([1, 2]))]
-        return {'op': 'do', 'dst': dst, 'r': r, 'f': f, 'ks': ks}
+        if q < 0.45:
+            fs = [[rng.choice(['isnone', 'none', 'ident'])] for _ in range(rng.choice([1, 1, 1, 2, 0]))]
+            ks = rng.choice([None, None, [], [rname(rng, t, 0.9)], [rname(rng, t, 0.9), rname(rng, t, 0.9)]])
+        else:
+            # functions with a second, column-named parameter (explicit keys only: the order of the keys matters). The column they read is
+            # often itself among the keys and transformed EARLIER in the same call: each step must see the rows as they are by then
+            b = rname(rng, t, 0.9)
+            fs = [[rng.choice(['eq', 'eq', 'coalesce']), b]]
+            if rng.random() < 0.4: fs.insert(rng.randrange(2), rng.choice([['isnone'], ['eq', rname(rng, t, 0.9)], ['none']]))
+            ks = [rname(rng, t, 0.9) for _ in range(rng.choice([1, 2, 2]))]
+            if rng.random() < 0.6: ks = [b] + [k_ for k_ in ks if k_ != b]
+        return {'op': 'do', 'dst': dst, 'r': r, 'fs': fs, 'ks': ks, 'fform': rng.choice(['single', 'list'])}
     if kind == 'concat': return {'op': 'concat', 'dst': dst, 'srcs': [rng.randrange(NREGS) for _ in range(rng.choice([0, 1, 1, 2, 2, 2, 3]))]}
     if kind == 'add':
         q = rng.random()
@@ -772,6 +788,8 @@ def single_ops(names, nrows):
         yield {'op': 'call', 'dst': dst, 'r': r, 'key': key, 'arg': {'f': ['isnone', 'a']}}
         yield {'op': 'do', 'dst': dst, 'r': r, 'f': ['isnone'], 'ks': [key]}
         yield {'op': 'do', 'dst': dst, 'r': r, 'f': ['coalesce', 'b'], 'ks': [key]}
+        yield {'op': 'do', 'dst': dst, 'r': r, 'fs': [['eq', 'a']], 'ks': ['a', key]}
+        yield {'op': 'do', 'dst': dst, 'r': r, 'fs': [['isnone'], ['eq', 'b']], 'ks': [key, 'b'], 'fform': 'list'}
     for i in range(-3, 3): yield {'op': 'getrow', 'r': r, 'i': i}
     yield {'op': 'iter', 'r': r}
     for a in (None, -3, -1, 0, 1, 2, 3):
